@@ -7,7 +7,7 @@ import io_gen as G
 
 
 def main():
-    ck = Check("C08", "proof of sub-codecs + exploration")
+    ck = Check("C08", "exploration")
     build_repo()
     pr = ck.proofs()
     run_roundtrip_check(ck, "LP", pr, G)
